@@ -420,6 +420,64 @@ fn f64_spaces(ctx: &Ctx, nmax: usize, cap: u64) {
     }
 }
 
+/// bands of mixed magnitude (2^20 and 2^-20 next to +-1 and 0) for every n = 3 configuration; the exact integer determinant and
+/// adjugate of the scaled dense twin decide which members are nonsingular to working precision (condition number <= 2^44)
+fn mixed_f64_space(ctx: &Ctx) {
+    let big = (1u64 << 20) as f64;
+    let lf = [0.0, 1.0, -1.0, big, 1.0 / big];
+    let li: [i128; 5] = [0, 1 << 20, -(1 << 20), 1 << 40, 1];
+    for c in all_cfgs(3, 3, 2) {
+        let sl = slots(c);
+        ctx.lattice(
+            &format!("f64 n=3 m1={} m2={} mixed-magnitude bands: all in-band entries over {{0,1,-1,2^20,2^-20}}", c.m1, c.m2),
+            pow(5, sl.len() as u32),
+            |idx| format!("{}", idx),
+            |idx, acc| {
+                let mut d = vec![0usize; sl.len()];
+                digits_uniform(idx, 5, &mut d);
+                let mut e = [[0i128; 3]; 3];
+                for (k, &(i, j)) in sl.iter().enumerate() {
+                    e[i][j] = li[d[k]];
+                }
+                let det = e[0][0] * (e[1][1] * e[2][2] - e[1][2] * e[2][1]) - e[0][1] * (e[1][0] * e[2][2] - e[1][2] * e[2][0]) + e[0][2] * (e[1][0] * e[2][1] - e[1][1] * e[2][0]);
+                if det == 0 {
+                    return;
+                }
+                let mut nadj = 0.0f64;
+                for i in 0..3 {
+                    let mut row = 0.0;
+                    for j in 0..3 {
+                        let rs: Vec<usize> = (0..3).filter(|&r0| r0 != j).collect();
+                        let cs: Vec<usize> = (0..3).filter(|&c0| c0 != i).collect();
+                        row += ((e[rs[0]][cs[0]] * e[rs[1]][cs[1]] - e[rs[0]][cs[1]] * e[rs[1]][cs[0]]) as f64).abs();
+                    }
+                    nadj = nadj.max(row);
+                }
+                let na = (0..3).map(|i| (0..3).map(|j| (e[i][j] as f64).abs()).sum::<f64>()).fold(0.0, f64::max);
+                if na * nadj / (det as f64).abs() > (1u64 << 44) as f64 {
+                    acc.hit("condition number beyond 2^44 (singular to working precision; skipped)");
+                    return;
+                }
+                let vals: Vec<f64> = d.iter().map(|&k| lf[k]).collect();
+                if d.iter().any(|&k| k == 3) && d.iter().any(|&k| k == 4) {
+                    acc.nontriv("band with entries 2^40 apart");
+                } else {
+                    acc.nontriv("mixed-magnitude band");
+                }
+                let mut local = Acc::new("t");
+                let res = catch(|| check_f64(c, &sl, &vals, &mut local));
+                acc.merge_worst(local);
+                let key = || format!("f64 mixed n=3 m1={} m2={} band={:?}", c.m1, c.m2, vals);
+                match res {
+                    Ok(Ok(())) => {}
+                    Ok(Err(e)) => acc.fail(idx, key(), e),
+                    Err(p) => acc.fail(idx, key(), format!("unexpected panic: {}", p)),
+                }
+            },
+        );
+    }
+}
+
 /// uniformly scaled integer bands: conditioning is scale invariant, every pivot candidate can be far below 1e-16
 fn scaled_f64_space(ctx: &Ctx, nmax: usize) {
     let scales = [2f64.powi(-60), 1e-18, 2f64.powi(40)];
@@ -777,6 +835,7 @@ fn main() {
     }
     f64_spaces(&ctx, ctx.pick(3, 4), ctx.pick(300_000u64, 20_000_000u64));
     scaled_f64_space(&ctx, ctx.pick(3, 4));
+    mixed_f64_space(&ctx);
     complex_space(&ctx, ctx.pick(3, 3), ctx.pick(100_000u64, 11_000_000u64));
 
     let depth = ctx.pick(4, 6);
